@@ -27,3 +27,12 @@ var commonAssumptions = []string{
 	"the executor's Go semantics (validated by native replay of every counterexample and by differential runs)",
 	"z3 4.8.12 verdicts (portfolio fallback cvc5 1.0 / z3 5.1; sampled cross-checks)",
 }
+
+// selfTests are run with the concurrency checks: planted defects the engine must report.
+func selfTests() []sym.CaseSpec {
+	mk := func(h, want string) sym.CaseSpec {
+		return sym.CaseSpec{Pkg: hPkg, Harness: h, Tag: "self:" + want, Cert: true, TrackMem: true}
+	}
+	return []sym.CaseSpec{mk("H_Self_Race", "race"), mk("H_Self_TwoReaders", "nocert"), mk("H_Self_Leak", "leak"),
+		mk("H_Self_Deadlock", "deadlock"), mk("H_Self_Violation", "assert")}
+}
